@@ -240,7 +240,48 @@ func init() {
 				return 0, false, false
 			}
 			nRet := 0
+			// named results: what a bare return hands back is what was last assigned to them on the
+			// path (s.B: bit 0/1 = created assigned true/false, bit 2 = err assigned non-nil)
+			var namedRes []types.Object
+			info0 := f.Pkg.TypesInfo
+			if f.Decl.Type.Results != nil {
+				for _, fld := range f.Decl.Type.Results.List {
+					for _, nm := range fld.Names {
+						namedRes = append(namedRes, info0.Defs[nm])
+					}
+				}
+			}
 			spec.Step = func(c *pathsim.Ctx, s pathsim.State, ev *pathsim.Event) []pathsim.State {
+				if ev.Kind == pathsim.EvAssign && len(namedRes) == 3 {
+					touched := false
+					for i, l := range ev.Lhs {
+						o := prog.IdentObjPlain(c.Info, l)
+						if o == nil || i >= len(ev.Rhs) {
+							continue
+						}
+						switch o {
+						case namedRes[1]:
+							s.B &^= 3
+							if tv, ok := c.Info.Types[ev.Rhs[i]]; ok && tv.Value != nil {
+								if tv.Value.String() == "true" {
+									s.B |= 1
+								} else {
+									s.B |= 2
+								}
+							}
+							touched = true
+						case namedRes[2]:
+							s.B &^= 4
+							if tv, ok := c.Info.Types[ev.Rhs[i]]; !ok || !tv.IsNil() {
+								s.B |= 4
+							}
+							touched = true
+						}
+					}
+					if touched {
+						return []pathsim.State{s}
+					}
+				}
 				if ev.Kind == pathsim.EvAssign && len(ev.Lhs) == 1 {
 					if prog.SelField(c.Info, ev.Lhs[0]) == ckID {
 						s.A |= 1 // id advanced
@@ -256,19 +297,27 @@ func init() {
 						return []pathsim.State{s}
 					}
 				}
-				if ev.Kind == pathsim.EvReturn && len(ev.Results) == 3 {
+				if ev.Kind == pathsim.EvReturn && (len(ev.Results) == 3 || (len(ev.Results) == 0 && len(namedRes) == 3)) {
 					errNil := false
-					if tv, ok := c.Info.Types[ev.Results[2]]; ok && tv.IsNil() {
-						errNil = true
+					created := ""
+					if len(ev.Results) == 3 {
+						if tv, ok := c.Info.Types[ev.Results[2]]; ok && tv.IsNil() {
+							errNil = true
+						}
+						if tv, ok := c.Info.Types[ev.Results[1]]; ok && tv.Value != nil {
+							created = tv.Value.String()
+						}
+					} else {
+						errNil = s.B&4 == 0
+						created = "false" // the zero value, unless assigned
+						if s.B&1 != 0 {
+							created = "true"
+						}
 					}
 					if !errNil {
 						return nil
 					}
 					nRet++
-					created := ""
-					if tv, ok := c.Info.Types[ev.Results[1]]; ok && tv.Value != nil {
-						created = tv.Value.String()
-					}
 					if s.A&2 == 0 {
 						c.Violate(ev.Pos, "[not-marked] CreateSavepoint succeeds without marking the snapshot as a savepoint: no savepoint artifact would be written")
 					}
